@@ -84,6 +84,8 @@ def strategy_(draw, thorough):
         # most access programs are only interesting over several row groups
         case["opts"]["rgo"] = draw(st.integers(1, max(1, n // 2)))
     case["prog"] = draw(program(case))
+    # the same file as another writer would have left it: no 'pandas' entry in the key/value metadata
+    case["strip_pandas"] = draw(st.integers(0, 4)) == 0
     return case
 
 
@@ -112,6 +114,19 @@ def run_case(case):
         df, path, err = c01.write_case(case, d)
         if err is not None:
             return discard("write_raised")
+        if case.get("strip_pandas"):
+            import os
+            from fastparquet import writer as fwriter
+            labels.append("no_pandas_metadata")
+            try:
+                simple = os.path.isfile(path)
+                fwriter.update_file_custom_metadata(path if simple else os.path.join(path, "_metadata"), {"pandas": None},
+                                                    is_metadata_file=not simple)
+            except Exception as e:
+                return discard("strip_raised:" + exc_sig(e))
+            # (without the metadata nothing is categorical by default: the `categories` option then changes dtypes by
+            #  design, so it is left out of the partial read, which must equal the same selection of the default full read)
+            read = {k: v for k, v in read.items() if k != "categories"}
         try:
             pf0 = fastparquet.ParquetFile(path)
             full = pf0.to_pandas()
